@@ -97,9 +97,80 @@ func genRespSize(r *core.Rand, win int) int {
 	}
 }
 
+// genC01ConnEdge: the connection window (fixed at 65535, never granted
+// reactively) runs out while streams with many tiny messages are being served,
+// so that it is exhausted inside or right before a 5-byte message header; then
+// the peer grants connection credit in steps of 1..4 bytes.
+func genC01ConnEdge(r *core.Rand, s *c01Scenario, tier string) {
+	s.PeerIWS = core.Pick(r, 65535, 100000, 1<<20)
+	s.Policy = core.Pick(r, 0, 1, 4)
+	nb := r.Range(1, 2)
+	left := 65535 + r.Range(-3000, 200)
+	for i := 0; i < nb; i++ {
+		st := c01Stream{}
+		tot := left / (nb - i)
+		if i == nb-1 {
+			tot = left
+		}
+		left -= tot
+		for tot > 0 {
+			n := r.Range(1000, 30000)
+			if n > tot {
+				n = tot
+			}
+			tot -= n
+			st.HSend = append(st.HSend, max(n-5, 0))
+		}
+		s.Streams = append(s.Streams, st)
+	}
+	for i := r.Range(1, 3); i > 0; i-- {
+		st := c01Stream{HRecv: r.Chance(1, 2)}
+		for k := r.Range(15, 50); k > 0; k-- {
+			st.HSend = append(st.HSend, r.Intn(13))
+		}
+		if r.Chance(1, 3) {
+			st.HSleepNs = int64(core.Pick(r, 1, 1000))
+		}
+		s.Streams = append(s.Streams, st)
+	}
+	order := make([]int, len(s.Streams))
+	for i := range order {
+		order[i] = i
+	}
+	for i := len(order) - 1; i > 0; i-- {
+		j := r.Intn(i + 1)
+		order[i], order[j] = order[j], order[i]
+	}
+	for _, i := range order {
+		s.Acts = append(s.Acts, c01Act{Kind: "open", Stream: i})
+	}
+	s.Acts = append(s.Acts, c01Act{Kind: "check", AfterNs: 1000000})
+	for k := r.Range(3, 14); k > 0; k-- {
+		a := c01Act{AfterNs: int64(core.Pick(r, 0, 1, 1000, 1000000))}
+		switch x := r.Intn(10); {
+		case x < 5:
+			a.Kind, a.N, a.K = "burst_conn", r.Range(1, 4), r.Range(1, 3)
+		case x < 7:
+			a.Kind = "check"
+		case x < 9:
+			a.Kind, a.N = "wu_conn", core.Pick(r, 5, 6, 20, 1000, 65535)
+		default:
+			a.Kind, a.N, a.Stream = "wu_stream", core.Pick(r, 1, 1000), r.Intn(len(s.Streams))
+		}
+		s.Acts = append(s.Acts, a)
+	}
+}
+
 func genC01(seed uint64, tier string, oracles string) *c01Scenario {
 	r := core.NewRand(seed)
 	s := &c01Scenario{Sched: genSched(r, seed), Net: genNet(r, seed, false), Oracles: oracles}
+	if r.Chance(1, 5) {
+		if r.Chance(1, 3) {
+			s.Server.WriteBuf = core.Pick(r, -1, 100, 4096)
+		}
+		genC01ConnEdge(r, s, tier)
+		return s
+	}
 	// loopy batching: occasional writer stalls
 	if r.Chance(1, 4) {
 		s.Net.StallPct = core.Pick(r, 5, 30)
